@@ -93,7 +93,8 @@ def assemble_spec(m, D):
             elif cc == "CLUT":
                 cd["palette"] = palettes[i]
             elif cc == "BITD":
-                pid = int(base[i]["palette"]) if "palette" in base[i] else 0
+                pv = str(base[i].get("palette", 0))
+                pid = int(pv) if pv.lstrip("-").isdigit() else 0     # only a palette NUMBER selects a custom palette
                 clut = b""
                 if pid > 0:
                     clut = palettes[pid - 1] if (pid - 1) in palettes else base[pid - 1]["palette"]
@@ -237,6 +238,8 @@ def gen_stub_movie(rng, flavour="valid"):
             elif rng.random() < 0.3:
                 pid = rng.choice([0, -1, -101])
             cast = bytes([1]) + struct.pack(">h", pid) + rb(rng)
+            if rng.random() < 0.25:
+                cast = bytes([3]) + rb(rng)        # a bitmap record that carries no palette number (any depth other than 8 bits)
             links = [("BITD", rb(rng))]
             if rng.random() < 0.4:
                 links.insert(rng.randrange(2), ("THUM", rb(rng)))
